@@ -21,7 +21,7 @@ def ser_jobs(tree, rng, per_class, modes=(False,), C=None, name=''):
 
 def run(tier):
     C = Check('C02', tier)
-    C.prove('Properties/C02.v', bridges={'Model/Recover.v': [], 'Properties/C02R.v': [], 'Properties/C19R.v': []})
+    C.prove('Properties/C02.v', bridges={'Model/Recover.v': [], 'Properties/C02R.v': [], 'Properties/C19R.v': [], 'Properties/C02S.v': []})
     C.cov['tie']['protocol_code_generator + generated code'] = ('correspondence-only: the real generator is run on every specification tree and the generated '
                                                                'serializers are executed; the reference semantics is Model/Elab.v + Model/Ser.v (deep embedding)')
     quick = tier == 'quick'
